@@ -12,6 +12,7 @@
 //	                    one item)  p *int  a any  t the element type itself (map[T]T, keys are other elements)
 //	range:i:L|nil:u     Range(it), it =  u = v slices.Values (default)  k maps.Keys of a map[T]struct{}
 //	                    h a hand-written push iterator that repeats every element
+//	                    (round 6: q i c r p o = single-use sequences, see round6.go)
 //	keysv:i:j  rangev:i:j   v_i = Keys(v_j) / Range(maps.Keys(v_j)): ANOTHER SET is the argument map
 //	new/add/rm/hasall/hasany:i:L:form   form =  . a fresh slice of exactly the items (default)
 //	                    n the nil slice spread (no items only)   0 no argument at all (no items only)
@@ -363,7 +364,7 @@ func doRange[T comparable](w *world[T], l []int, u string) (r mapset.Set[T], aft
 		}
 		return mapset.Range(it), poisonItems, true
 	}
-	return nil, nil, false
+	return rangeSingleUse(w, items, u) // round 6: the single-use sequences q i c r p o (round6.go)
 }
 
 // ---- Append with a given spare capacity
